@@ -175,3 +175,24 @@ def replay_fn(name, args, want):
     doc = "{{" + name + ":" + "|".join(args) + "}}"
     got = w.expand(doc)
     return ("expand(" + repr(doc) + ")", got.strip() != want.strip(), f"result {got!r}, MediaWiki rule gives {want!r}")
+
+
+# ---------------------------------------------------------------- Ob7 an argument passed as name=value is found by {{{name}}}
+import C14_views as _V  # the expander's argument loop, AST-sliced (V2)
+
+
+def bind_roundtrip(name: str) -> bool:
+    """{{t|<name>=V}} with body {{{<name>}}}: the key under which the expander stores the argument (slice of the argument loop)
+    is the key under which expand_args (slice) looks the reference up"""
+    ht = _V.V2(_V._Self(), ("t", name + "=V"), None, lambda x, p, e: x)
+    ctx.start_page("T")
+    ctx.cookies = [("A", (name,), False)]
+    return EXPAND_ARGS(chr(MAGIC_FIRST), dict(ht)) == "V"
+
+
+def replay_bind(name):
+    w = Wtp(quiet=True, quiet_output=True)
+    w.add_page("Template:t", 10, "[{{{" + name + "}}}]")
+    w.start_page("T")
+    got = w.expand("{{t|" + name + "=V}}")
+    return (f"template body {'[{{{' + name + '}}}]'!r}: expand({'{{t|' + name + '=V}}'!r})", got != "[V]", f"result {got!r}, expected '[V]'")
